@@ -422,3 +422,65 @@ def reach_under_variant(prog, fn, adt, variant, start=0):
         for s_ in succs:
             st.append((s_, nenv))
     return seen
+
+
+def control_deps(fn, block, pd=None):
+    """switch blocks that `block` is control dependent on: S has a successor from which `block` is unavoidable
+    (block post-dominates it, or is it) while `block` is avoidable from S itself"""
+    pd = pd if pd is not None else fn.postdominators(fn.exit_blocks())
+    out = []
+    for S in fn.reachable():
+        t = fn.term(S)
+        if t["k"] != "switch":
+            continue
+        ss = [s for s in fn.succs(S) if not fn.is_cleanup(s)]
+        if len(ss) < 2:
+            continue
+        hit = [s for s in ss if s == block or fn.postdominates(block, s, pd)]
+        if hit and len(hit) < len(ss) and not (S != block and fn.postdominates(block, S, pd)):
+            out.append(S)
+    return out
+
+
+def dependence_slice(fn, block, extra_operands=(), maxdepth=40):
+    """(fields read, callee names) that decide whether `block` runs and what `extra_operands` are: the closure of control
+    dependence (switch operands) and data dependence (definitions of the locals involved, including the control
+    dependences of the blocks where they are defined)."""
+    pd = fn.postdominators(fn.exit_blocks())
+    fields, callees = set(), set()
+    seen_blocks, seen_locals = set(), set()
+    bwork, owork = [block], [(o, 0) for o in extra_operands]
+    while bwork or owork:
+        while owork:
+            o, d = owork.pop()
+            if not is_place(o):
+                continue
+            for (a, v, f_) in proj_fields(o):
+                fields.add((a, f_))
+            l = o["l"]
+            if l in seen_locals or d > maxdepth:
+                continue
+            seen_locals.add(l)
+            for (bb, idx, kind, payload) in fn.defs().get(l, []):
+                if bb not in seen_blocks:
+                    bwork.append(bb)
+                if kind == "assign":
+                    for x in rvalue_operands(payload):
+                        owork.append((x, d + 1))
+                elif kind == "call":
+                    callees.add(callee_name(payload) or "?")
+                    for x in payload["args"]:
+                        owork.append((x, d + 1))
+        while bwork:
+            b = bwork.pop()
+            if b in seen_blocks:
+                continue
+            seen_blocks.add(b)
+            for S in control_deps(fn, b, pd):
+                t = fn.term(S)
+                op = t.get("d") if t.get("d") is not None else t.get("op")
+                if op is not None:
+                    owork.append((op, 0))
+                if S not in seen_blocks:
+                    bwork.append(S)
+    return fields, callees
